@@ -15,8 +15,9 @@ NOTES (item 3 of the audit):
   `…_aggregate_signature`) proves something about unchecked arithmetic (`idxLoop`: `mulU`, `addU`).
 * `isPanic` only sees arithmetic overflow; allocation / stack are outside the model (stated in the level text).
 -/
-namespace Vacuity.C05
+set_option autoImplicit false
 open LegacyDec Decoder LegacyEnc C05
+namespace Vacuity.C05
 
 /-- totality, interesting branch: the 24-byte input whose length prefix is `2^64 - 1` (on which `8 + size` overflows, the
 panic of the code before the fix) is an error for the envelope decoder, and — wrapped as the single element of a
